@@ -20,6 +20,7 @@ import subprocess
 import sys
 import time
 import uuid as real_uuid
+from concurrent.futures import ThreadPoolExecutor
 
 from common import Verdict, tier as get_tier, seed as get_seed, RUN
 from vsim import tagged
@@ -544,7 +545,7 @@ class Gen:
             return call(f, T("obj"), T("obj"), lit(r.choice([False, False, False, True, 0])))
         if f == "States.MathRandom":
             lo = r.randrange(-3, 6)
-            hi = lo + r.choice([1, 2, 5, 9, 0, -2])
+            hi = lo + r.choice([1, 2, 5, 9, 3, 4, 0, -2])
             args = [lit(lo), lit(hi)]
             if r.random() < 0.4:
                 args.append(r.choice([lit(7), lit("seed"), lit(1.5), copy.deepcopy(PATHS["obj"][0]), copy.deepcopy(PATHS["arr"][0]), lit(None)]))
@@ -766,8 +767,10 @@ def make_obs(oid, kind, tla_tpl, inp, ctx, out, val, same, seedsame, engine):
 def judge_and_report(v, obs, info, workdir, extra_cov):
     import judge
     try:
-        fails, stats = judge.run_judge("JudgeC13", obs, workdir, parts=PARTS if len(obs) < 20000 else 16)
-        ok, lawstats, tail = judge.run_laws("Template")
+        with ThreadPoolExecutor(max_workers=1) as ex:          # the laws are model-checked while the judge runs
+            laws = ex.submit(judge.run_laws, "Template")
+            fails, stats = judge.run_judge("JudgeC13", obs, workdir, parts=PARTS if len(obs) < 20000 else 16)
+            ok, lawstats, tail = laws.result()
         if not ok:
             v.machinery_failure("a law of Template.tla fails in TLC: " + tail[-800:])
         stats["states"] += lawstats["law_states"]
